@@ -202,3 +202,26 @@ Proof.
   - cbn. lia.
   - exact (proj1 w_import_child_facts).
 Qed.
+
+(* ------------------------------------------------------------------ soundness without hypotheses: non-vacuity *)
+
+From LC Require Import ValidSoundProofs.
+
+(** both a units import and a component import of model 0 are RESOLVED (outside unresolved_world and units_stay_local) *)
+Definition lib_both : model :=
+  mkM "lib" "" "" [mkU "lu" "" None [mkUI "metre" "milli" (2 # 1) (0 # 1) ""]]
+    [Comp (mkC 20 "parent" "" "" None [mk_var 22 "p" "lu" "" []] [] []) []].
+Definition w_resolved_both : world :=
+  [mkM "m" "" "" [mkU "u" "" (Some (mkIS 5 "" "lib.cellml" true (Some 1), "lu")) []]
+     [Comp (mkC 1 "c" "" "" (Some (mkIS 6 "" "lib.cellml" true (Some 1), "parent")) [] [] []) [];
+      mk_comp 2 "d" [mk_var 11 "x" "u" "" []] [] [] []];
+   lib_both].
+
+Lemma w_resolved_both_accepted : validate current_fixes ueq_c08 false w_resolved_both = [].
+Proof. vm_compute. reflexivity. Qed.
+
+Lemma w_resolved_both_rules : Rules current_fixes ueq_c08 w_resolved_both.
+Proof.
+  apply validate_sound_general; [|exact w_resolved_both_accepted].
+  split; cbn; repeat constructor; cbn; intuition discriminate.
+Qed.
